@@ -38,6 +38,16 @@ class Adapter(EnvAdapter):
 
     # ---- configurations -------------------------------------------------------------------
     def configs(self, tier):
+        # time-limit sweep ("for every value passed", C11): limits below, at and ABOVE the number of tiles; the shuttle
+        # policy keeps every agent walking between already clean tiles, so the episode can only end by the limit
+        from harness.envs.base import T_SWEEP_QUICK_FEW, T_SWEEP_THOROUGH_FEW
+
+        ts = (8, 9) + (T_SWEEP_QUICK_FEW if tier == "quick" else T_SWEEP_THOROUGH_FEW)
+        return self._base_configs(tier) + [
+            _c(f"r2x4a{1 + t % 2}_t{t}_sweep", "random", 2, 4, 1 + t % 2, t, 0.5, episodes=1, max_steps=t + 2, policies=["shuttle"],
+               probe_every=0, props=["C03", "C11"]) for t in ts]
+
+    def _base_configs(self, tier):
         if tier == "quick":
             return [
                 _c("default10a3", "default", 10, 10, 3, None, None, episodes=3, max_steps=104,
@@ -148,6 +158,15 @@ class Adapter(EnvAdapter):
 
     def choose(self, policy, env, state, obs, rng, i):
         dt = env.action_spec.dtype
+        if policy == "shuttle":      # legal moves onto tiles that are already clean whenever there is one: never finishes
+            grid, locs = self._view(state)
+            out = []
+            for p in locs:
+                lm = self._legal_moves(grid, p)
+                clean = [a for a in lm if grid[p[0] + MOVES[a][0], p[1] + MOVES[a][1]] != DIRTY]
+                pool = clean or lm
+                out.append(int(rng.choice(pool)) if pool else 0)
+            return np.asarray(out, dtype=dt)
         if policy in ("legal", "sweep", "inject"):
             grid, locs = self._view(state)
             if policy == "legal":
